@@ -44,8 +44,11 @@ type Type struct {
 	Fields []Field
 	// Extra are struct fields the library carries beyond the specification layout.
 	Extra []Field
-	New   func() sms.PDU
-	lib   *Type
+	// BodylessOnError: the document says the PDU body is not returned when command_status is non-zero
+	// (SMPP 3.4 §4.1.2 bind_transmitter_resp, §4.1.4 bind_receiver_resp, §4.4.2 submit_sm_resp)
+	BodylessOnError bool
+	New             func() sms.PDU
+	lib             *Type
 }
 
 // Lib is the type as the library sees it: specification fields followed by Extra.
@@ -219,6 +222,7 @@ func load() *Tables {
 				Src    string  `json:"src"`
 				Fields []Field `json:"fields"`
 				Extra  []Field `json:"extra"`
+				NoBody bool    `json:"bodyless_on_error"`
 			} `json:"pdus"`
 			StatusReportBody *struct {
 				Fields []Field `json:"fields"`
@@ -232,7 +236,7 @@ func load() *Tables {
 			if err != nil {
 				panic("verifmon harness: bad cmd " + p.Cmd)
 			}
-			t := &Type{Family: fam, HKind: f.Header, Name: p.Name, Cmd: uint32(cmd), Go: p.Go, Resp: p.Resp, Src: p.Src, Fields: p.Fields, Extra: p.Extra}
+			t := &Type{Family: fam, HKind: f.Header, Name: p.Name, Cmd: uint32(cmd), Go: p.Go, Resp: p.Resp, Src: p.Src, Fields: p.Fields, Extra: p.Extra, BodylessOnError: p.NoBody}
 			t.New = constructors[fam+"."+p.Go]
 			if t.New == nil {
 				panic(fmt.Sprintf("verifmon harness: no constructor for %s.%s", fam, p.Go))
